@@ -25,6 +25,7 @@
 (*   resolve  sizes of the answer sets for the poses of the answers        *)
 (*   pgram    the wrapper stack contains a parallelogram coupling (answers  *)
 (*            are re-coupled after the leaf solver ordered them)           *)
+(*   fwd_n    distance of the stack's forward / link poses from the model   *)
 (*   twin_shift5  2 * sign5 * offset5 (AU): the wrist twin negates the     *)
 (*            geometric J5                                                 *)
 (***************************************************************************)
@@ -122,5 +123,12 @@ Constrained(c) ==
 Coupled(c) ==
   IF c.pgram /\ "C01:answer-misses-pose" \in Sound(c) THEN {"C16:answer-misses-pose-through-coupling"} ELSE {}
 
-Contract(c) == Sound(c) \cup Complete(c) \cup Ordered(c) \cup FiveDofOk(c) \cup Constrained(c) \cup Coupled(c)
+\* ---- C09 / C16: the stack's own forward kinematics and link poses at the truth configuration ----
+\* c.fwd_n: distance (nm / nrad) of forward and link poses from bases * chain(de-coupled joints) * tools
+ForwardOk(c) ==
+  IF c.fwd_n <= 2 THEN {}
+  ELSE IF c.pgram THEN {"C16:forward-or-link-poses-differ-from-inner-robot-at-reduced-vector"}
+  ELSE {"C09:forward-or-link-poses-differ-from-base-robot-tool"}
+
+Contract(c) == ForwardOk(c) \cup Sound(c) \cup Complete(c) \cup Ordered(c) \cup FiveDofOk(c) \cup Constrained(c) \cup Coupled(c)
 =============================================================================
